@@ -153,7 +153,10 @@ def make_app(script, counters):
             return Iterable(chunks[nw:], script, counters, kind == "list")
         if kind in ("file", "file_noseek"):
             data = b"".join(chunks)
-            fobj = CountingFile(data, counters) if kind == "file" else NoSeekFile(data, counters)
+            off = script.get("file_offset", 0)
+            fobj = CountingFile(b"z" * off + data, counters) if kind == "file" else NoSeekFile(data, counters)
+            if off and kind == "file":
+                fobj.seek(off)      # the application hands over a file positioned behind its start (a range request)
             counters["file_handed"] += 1
             counters.setdefault("_keep", []).append(fobj)   # no garbage collection (IOBase.__del__ closes) before the counters are read
             hook = script.get("_on_iter")
@@ -174,7 +177,7 @@ def request_bytes(req, path="/x"):
     return ("\r\n".join(lines) + "\r\n\r\n").encode()
 
 
-def exchange(script, req, adj=None, pipeline=1, disconnect_at=None, room=None, disc_mode="epipe"):
+def exchange(script, req, adj=None, pipeline=1, disconnect_at=None, room=None, disc_mode="epipe", take=0):
     """Run one scripted exchange (plus `pipeline` further plain requests sent in
     the same read) on the real server; returns the observation record.
     disconnect_at=k: the client vanishes just before the application's k-th
@@ -205,6 +208,7 @@ def exchange(script, req, adj=None, pipeline=1, disconnect_at=None, room=None, d
     srv = syncdrv.SyncServer(app, **dict(adj or {}))
     try:
         conn = srv.connect(room=room)
+        conn.take = take
         box["conn"] = conn
         nxt = {"version": req.get("version", "1.1"), "conn": "keep-alive" if req.get("version") == "1.0" else ""}
         data = request_bytes(req) + b"".join(request_bytes(nxt, "/next") for _ in range(pipeline))
